@@ -384,13 +384,14 @@ PROPS['C17'] = {
                       'kani::beaconblocks::beacon_age_window_is_cyclic_distance': {'file': 'native/beacon_age.rs', 'attach': 'src/beacon.rs', 'test': 'beacon_age_window_is_cyclic'},
                       'base62::lemma_roundtrip_any_body': {'file': 'native/beacon_roundtrip.rs', 'attach': 'src/beacon.rs', 'test': 'beacons_round_trip_for_every_hour'},
                       r'beacon::BeaconSerializer::get_keystream': {'file': 'native/beacon_password.rs', 'attach': 'src/beacon.rs', 'test': 'beacons_of_other_passwords_are_ignored'},
-                      r'beacon::BeaconSerializer::mask_with_keystream': {'file': 'native/beacon_long_text.rs', 'attach': 'src/beacon.rs', 'test': 'long_beacon_bodies_do_not_panic'}},
+                      r'beacon::BeaconSerializer::mask_with_keystream': {'file': 'native/beacon_long_text.rs', 'attach': 'src/beacon.rs', 'test': 'long_beacon_bodies_do_not_panic'},
+                      r'beacon::BeaconSerializer::decode': {'file': 'native/beacon_markers.rs', 'attach': 'src/beacon.rs', 'test': 'marker_search_never_panics'}},
     'trusted': [
         'SHA-512 key stream as an uninterpreted function ks(password, type, seed, block) of length 64; R6: SmallVec<[u8;64]> modelled by Vec<u8>',
         'std contracts written in the units: <[T]>::reverse, String::with_capacity; R5 pinned `buf[0..buflen].reverse();`',
     ],
     'not_decided': [
-        'marker search in arbitrary text (BeaconSerializer::decode: str::find, sanitising, several beacons per text, overlapping begin/end markers)',
+        'marker search in arbitrary text: BeaconSerializer::decode is proved PANIC-FREE and terminating for every text (str::find and string slicing through wrappers with their panic conditions as preconditions; F12 found by this contract); that it finds every embedded beacon (value) is not under contract',
         'peerlist_encode, and the VALUES peerlist_decode returns (field layout): peerlist_decode is proved panic-free, not value-exact; its age-test statements (std::num::Wrapping) are a pinned call there and a Kani block for the condition',
         'rejection of beacons made with a different password beyond "the whole password reaches the SHA-512 input" (get_keystream contract + lemma_ks_input_injective): the 1-byte seed check and the marker comparison are not under contract; collision resistance is the cipher assumption',
     ],
